@@ -1,3 +1,2 @@
 package main
 
-func c13Scenarios(tier string) []Scenario { return nil }
